@@ -445,14 +445,30 @@ def rule_sequence_separator(ctx: Ctx, rule: str) -> None:
                    'WcParse._sequence that keeps a `/` inside the class must emit the separator class unless unix rules apply '
                    '(as _references does for escaped separators)')
     repo = ctx.repo
+    from . import seqrules
+    from ..symeval import focus
     sq = repo.func(WP, 'WcParse._sequence')
-    q = fq(sq)
-    arms = [s for s in q.stmts(lambda n: isinstance(n, ast.Assign)) if norm_src(s.targets[0]) == 'value' and
-            any(t.replace('"', "'") == "c == '/'" and p == 'T' for t, p in q.guards(s))]
-    ok = bool(arms) and all(('self.unix' in norm_src(a.value) or 'self.bare_sep' in norm_src(a.value)) or
-                            any('self.unix' in t for t, _p in q.guards(a)) for a in arms)
-    ctx.ob(rule, f'{WP}:WcParse._sequence/separator-in-brackets', ok, repo.loc(WP, arms[0] if arms else sq.node),
-           'value = separator class when not unix', '; '.join(norm_src(a) for a in arms) or 'arm not found', note='F18',
+    rows, scan, _every = seqrules.loop_table(repo, WP, 'WcParse')
+    got = []
+    n = 0
+    for p in rows:
+        focus(p)
+        if seqrules._char(p, scan) != '/' or p.raised:
+            continue
+        n += 1
+        vals = [e[2][0] for e in p.of('call') if e[1].endswith('.append') and e[2]] + \
+               [e[2][1] for e in p.of('call') if e[1] == f'{WP}:WcParse._sequence_range_check' and len(e[2]) > 1]
+        unix = p.decisions.get('self.unix')
+        for v in vals:
+            t = _tag(v)
+            if unix is True or 'self.bare_sep' in t or 'self.sep' in t or '\\\\' in t:
+                continue
+            got.append('value = c' if t == scan else f'value = {t[:60]}')
+    if not n:
+        raise AnalysisError('WcParse._sequence: no row of the scan loop keeps a `/` inside the bracket')
+    ok = not got
+    ctx.ob(rule, f'{WP}:WcParse._sequence/separator-in-brackets', ok, repo.loc(WP, sq.node),
+           'value = separator class when not unix', sorted(set(got))[0] if got else f'{n} rows emit the separator class', note='F18',
            witness="fnmatch('a\\\\b', 'a[/]b', flags=FORCEWIN) is False although fnmatch('a\\\\b', 'a/b', flags=FORCEWIN) is True")
 
 
